@@ -8,7 +8,7 @@ Model: coq/theories/Model/Lookup.v (executable).  Tie to the code, re-establishe
   register_container, TwoWayMap.insert (with its rollback) / remove / remove_left / remove_right / clear; lookup.py:
   _make_row_key_map (bin kinds), get_mapped_keys, update_record and remove_row_id of SimpleLookupMapping and
   ContainsLookupMapping (also get_new_keys_iter: key product, match_empty), lookup_by_key, LookupMapColumn._do_fast_lookup / _do_lookup_with_sort /
-  _reset_sorted_versions.  Proofs/LookupGen_proofs.v proves every translated function equal to the model function the
+  _reset_sorted_versions; sort_key.py: SortKey.__lt__.  Proofs/LookupGen_proofs.v proves every translated function equal to the model function the
   C13 theorems speak about (Props/C13.v: C13_gen_*), so a semantic edit of these functions breaks a proof obligation.
   The translated functions run over the primitives of Model/LookupRt.v (dict access, the sorted_versions dict of a
   LookupSet, sorted(), set(), get_new_keys_iter).
@@ -55,8 +55,8 @@ TRUSTED = ['harness/lk2v.py (Python subset -> Gallina in a state+exception monad
            'pop on an empty dict, in-place update of a stored container, LookupSet.sorted_versions access, sorted(), set()) '
            'and the binding of the translation (a rec is (row id, cells of the lookup columns); relation bookkeeping calls '
            'have no effect on the index)',
-           'hand-written and tied only differentially (levels C, D): sort_key.SortKey.__lt__ / make_sort_key (sortkey_lt, sort_values), '
-           'Python == / hash on values (val_eqb, hashable)',
+           'hand-written and tied only differentially (levels C, D): the reading of sort cells by make_sort_key / SortKey.__init__ '
+           '(sort_values, spec_col), Python < == hash on values (py_lt, val_eqb, hashable), RecordSet.get_one',
            'column type conversion of lookup keys (col.convert) and rich cell values (get_cell_value) are taken from '
            'the implementation (kernel V), not modelled here',
            'CPython: dict/set semantics (hash consistent with ==), sorted() returns the sorted permutation, '
@@ -79,7 +79,7 @@ LEVEL_TEXT = ('Kernel-checked theorems for all op sequences and keys: TwoWayMap 
               'functions for make_sort_spec, the bin classes, TwoWayMap, the lookup mappings and the sorted-versions logic '
               'are proved equal to the code translated from the source on every run.')
 LEVEL_NOTE = ('Trusted: Coq kernel; the lk2v translator and the runtime primitives of LookupRt.v; the hand-written parts '
-              '(SortKey.__lt__, ==/hash of values) validated differentially on every run; key type '
+              '(cell reads of SortKey, < == hash of values) validated differentially on every run; key type '
               'conversion and rich values come from the implementation.')
 
 UNSUPPORTED = 'unsupported'
@@ -323,6 +323,12 @@ Definition bin_check (c : bin_case) : bool :=
   let '(m2, o2) := bin_run (bin_step_gen kd) [] ops in
   leqb (bout_eqb kd) o1 outs && dict_same val_eqb val_eqb kd m1 dump &&
   leqb (bout_eqb kd) o2 outs && dict_same val_eqb val_eqb kd m2 dump.
+Definition obool_eqb (a b : option bool) := match a, b with Some x, Some y => Bool.eqb x y | None, None => true | _, _ => false end.
+Definition sk_case := (list val * list val * list bool * Z * Z * option bool)%type.
+Definition sk_check (c : sk_case) : bool :=
+  let '(va, vb, ascs, ra, rb, r) := c in
+  obool_eqb (sortkey_lt va vb ascs ra rb) r &&
+  obool_eqb (match gen_sortkey_lt va vb ascs ra rb tt with Ok b _ => Some b | Exc _ _ => None end) r.
 Definition somes {A} (l : list (option A)) : list A := flat_map (fun x => match x with Some a => [a] | None => [] end) l.
 Definition op_obs_gen (cols : list colspec) (m : lmap) (o : op) : lmap * obs :=
   match o with
@@ -364,7 +370,7 @@ IMPORTS = []
 
 
 BATCH_DEFS = r'''
-Inductive anycase := CS (c : ss_case) | CT (c : tw_case) | CM (c : lm_case) | CR (c : lm_case * bool) | CC (c : cell_case) | CB (c : bin_case).
+Inductive anycase := CS (c : ss_case) | CT (c : tw_case) | CM (c : lm_case) | CR (c : lm_case * bool) | CC (c : cell_case) | CB (c : bin_case) | CK (c : sk_case).
 Definition any_check (c : anycase) : bool :=
   match c with
   | CS c => ss_check c && ss_check_gen c
@@ -373,9 +379,10 @@ Definition any_check (c : anycase) : bool :=
   | CR c => tr_check2 c && tr_check_gen c
   | CC c => cell_check c
   | CB c => bin_check c
+  | CK c => sk_check c
   end.
 '''
-WRAP = {'sortspec': 'CS', 'twoway': 'CT', 'mapping': 'CM', 'trace': 'CR', 'cells': 'CC', 'bins': 'CB'}
+WRAP = {'sortspec': 'CS', 'twoway': 'CT', 'mapping': 'CM', 'trace': 'CR', 'cells': 'CC', 'bins': 'CB', 'sortkey': 'CK'}
 
 
 def queue_cases(ctx, name, lits, on_fail):
@@ -537,7 +544,7 @@ def dump_lit(d):
 def correspond_twoway(ctx):
   im = _impl()
   cases, lits = [], []
-  per_pair = ctx.n(4, 300)
+  per_pair = ctx.n(4, 200)
   for (lk, lkc) in KINDS:
     for (rk, rkc) in KINDS:
       for i in range(per_pair):
@@ -636,6 +643,40 @@ def correspond_bins(ctx):
       ctx.count(('bin', str(k), tuple(ops)), nontrivial=bool(mapping) or any('OExc' in o for o in outs), kind='B:bin objects')
   queue_cases(ctx, 'bins', lits, lambda i: ctx.broken(
     'correspondence:a bin class differs from the model or from the translated class', 'case %r' % (cases[i],)))
+
+
+def correspond_sortkey(ctx):
+  """SortKey.__lt__ of the real make_sort_key against the model and the translated function, on pairs of value tuples."""
+  im = _impl()
+  tbl = StubTable('T')
+  other = StubTable('U')
+  RecT, RecU = stub_record_class(im, tbl), stub_record_class(im, other)
+  alt = im.objtypes.AltText
+  pool = [None, 0, 1, 1.0, True, 2.5, -3, 'a', 'b', 'B', '', alt('x'), alt('y'), datetime.date(2020, 1, 2), datetime.date(2021, 5, 6),
+          (1, 2), (1, 'a'), ('a',), [1], [2, 1], RecT(1), RecT(2), RecU(1), 10 ** 20, 0.1]
+  tbl.rows = {1: {'S': 0, 'T': 0, 'V': 0}}
+  lits, cases = [], []
+  for _ in range(ctx.n(120, 6000)):
+    n = ctx.rng.choice([1, 1, 2, 3])
+    spec = tuple(ctx.rng.choice(['', '-']) + c for c in ['S', 'T', 'V'][:n])
+    SK = im.sort_key.make_sort_key(tbl, spec)
+    va = tuple(ctx.rng.choice(pool) for _ in range(n))
+    vb = tuple(ctx.rng.choice(pool) if ctx.rng.random() < 0.6 else x for x in va)
+    ra, rb = ctx.rng.choice([1, 2, 3]), ctx.rng.choice([1, 2, 3])
+    try:
+      r = bool(SK(ra, va) < SK(rb, vb))
+      rl = '(Some %s)' % core.boollit(r)
+    except Exception as e:
+      r, rl = type(e).__name__, 'None'
+    try:
+      lits.append('(%s, %s, %s, %s, %s, %s)' % (vlist(va), vlist(vb), core.coq_list([core.boollit(not c.startswith('-')) for c in spec]),
+                                              core.zlit(ra), core.zlit(rb), rl))
+    except Unsupported:
+      continue
+    cases.append((spec, repr(va), repr(vb), ra, rb, r))
+    ctx.count(('sk', spec, repr(va), repr(vb), ra, rb), nontrivial=(va != vb), kind='C:SortKey pairs%s' % (' (raised)' if rl == 'None' else ''))
+  queue_cases(ctx, 'sortkey', lits, lambda i: ctx.broken(
+    'correspondence:SortKey.__lt__ differs from the model or from the translated function', 'case %r' % (cases[i],)))
 
 
 def twoway_same_pairs(fd, bd):
@@ -839,7 +880,7 @@ def gen_mapping_case(rng, im):
 def correspond_mappings(ctx):
   im = _impl()
   cases, lits = [], []
-  for _ in range(ctx.n(100, 4000)):
+  for _ in range(ctx.n(100, 3000)):
     try:
       case, lit, nontrivial, contains = gen_mapping_case(ctx.rng, im)
     except Unsupported as e:
@@ -1435,7 +1476,7 @@ def correspond_engine(ctx):
   im = _impl()
   tr_lits, tr_info, cell_lits, cell_info = [], [], [], []
   ctx._c13_failures = []
-  n_docs = ctx.n(6, 250)
+  n_docs = ctx.n(6, 150)
   for k in range(n_docs):
     sd = engine_seed(ctx, k)
     rng = random.Random(sd)
@@ -1480,7 +1521,7 @@ def correspond_engine(ctx):
 
 
 def correspond(ctx):
-  for f in (correspond_sortspec, correspond_bins, correspond_twoway, correspond_mappings, correspond_engine):
+  for f in (correspond_sortspec, correspond_bins, correspond_twoway, correspond_sortkey, correspond_mappings, correspond_engine):
     f(ctx)
     ctx.log('%s: cases generated' % f.__name__)
   flush_cases(ctx)
@@ -1493,7 +1534,7 @@ def correspond(ctx):
 def search(ctx):
   import random
   im = _impl()
-  n_docs = ctx.n(20, 1000)
+  n_docs = ctx.n(20, 600)
   cells = [0, 0]
   def on_bundle(step, stats):
     for (i, key, exp, n_t) in stats:
